@@ -17,7 +17,7 @@ import gen_c11 as G
 
 JOBS = max(1, min(8, vlib.NJOBS))
 SAN = ['-fsanitize=address,undefined', '-fno-sanitize-recover=all']
-CACHE_KEEP = 700
+CACHE_KEEP = 330     # thorough (244) + the quick programs of a few seeds; about 4-7 MB each
 
 
 # --------------------------------------------------------------------------- build / run
@@ -241,12 +241,14 @@ def generated(ctx, rng):
     else:
         n = 14
         shapes = list(G.QUICK_SHAPES)
+    si = 0
     for i in range(n):
         if ctx.thorough and i % 3 == 2:
             cl = G.random_hierarchy(rng, rng.range(4, 7))
             shape = 'random'
         else:
-            shape = shapes[i % len(shapes)]
+            shape = shapes[si % len(shapes)]
+            si += 1
             cl = G.SHAPES[shape]
         out.append(G.make_scenario(rng, 's%d_%d_%s' % (ctx.seed, i, shape), shape, cl, nmethods=18 if not ctx.thorough else 16,
                                    moveonly=(i % 2 == 0), sanitize=(i % 2 == 1), ndebug=(i % 4 >= 2),
@@ -261,7 +263,6 @@ def check_scenario(ctx, scn, mdl, inc_hash, compiler, stats, verbose=False):
     binp, log, d = build_program(scn, text, inc_hash, compiler)
     exps = G.expectations(scn)
     stats['programs'] += 1
-    stats['built' if log == 'built' else 'cached'] += 1
     replay = {'scenario': scn, 'source': os.path.join(d, 'prog.cpp'), 'compiler': compiler, 'repo': vlib.REPO}
     if binp is None:
         errs = [l for l in log.split('\n') if 'error' in l][:6]
@@ -295,6 +296,14 @@ def check_scenario(ctx, scn, mdl, inc_hash, compiler, stats, verbose=False):
         if not lines and not complete:
             continue      # the program died earlier; reported below
         fails, k1 = oracle_call(exps[cid], lines)
+        for l in lines:
+            if l.startswith('N '):
+                e = exps[cid]['n'].get(int(l.split()[1]))
+                if e and e['by_value']:
+                    key = '%s|%s|%s' % (exps[cid]['route'], e['cat'], e['expr'])
+                    mv = fields(l).get('mv')
+                    stats['moves'].setdefault(key, {})
+                    stats['moves'][key][mv] = stats['moves'][key].get(mv, 0) + 1
         for k in k1:
             stats['k1'] += 1
             ctx.violation(k, {}, finding_key='byvalue-moves')
@@ -360,7 +369,7 @@ def main():
     if not mdl:
         ctx.broken.append('model driver does not build: ' + log1[-300:])
     inc_hash = vlib.tree_hash([os.path.join(vlib.REPO, 'include')])
-    stats = {'programs': 0, 'built': 0, 'cached': 0, 'calls': 0, 'k1': 0, 'violations': 0, 'model_diffs': 0, 'distinct': set(),
+    stats = {'programs': 0, 'built': 0, 'cached': 0, 'failed': 0, 'moves': {}, 'calls': 0, 'k1': 0, 'violations': 0, 'model_diffs': 0, 'distinct': set(),
              'dist': {}, 'shapes': {}, 'samples': []}
 
     if ctx.replay:
@@ -387,7 +396,8 @@ def main():
     t0 = time.time()
     # compile in parallel (at most 8 at a time), then judge sequentially so that output order is deterministic
     with concurrent.futures.ThreadPoolExecutor(max_workers=JOBS) as ex:
-        list(ex.map(lambda j: build_program(j[0], G.emit_cpp(j[0]), inc_hash, j[1]), jobs))
+        for binp, log, d in ex.map(lambda j: build_program(j[0], G.emit_cpp(j[0]), inc_hash, j[1]), jobs):
+            stats['built' if log == 'built' else ('cached' if log == 'cached' else 'failed')] += 1
     stats['compile_s'] = round(time.time() - t0, 1)
     for s, comp in jobs:
         check_scenario(ctx, s, mdl, inc_hash, comp, stats)
@@ -404,6 +414,8 @@ def finish(ctx, stats, njobs):
         'distinct_nontrivial': len(stats['distinct']),
         'programs': stats['programs'],
         'programs_compiled_this_run': stats['built'],
+        'programs_not_compiling': stats['failed'],
+        'measured_moves_of_by_value_arguments (route|category|caller expression -> {moves: observations})': stats['moves'],
         'compile_s': stats.get('compile_s', 0),
         'calls': stats['calls'],
         'known_finding_observations': stats['k1'],
